@@ -2,7 +2,7 @@
    documents, the union of what they give for each; with the end-to-end theorem of C01 the engine does too. *)
 From Coq Require Import String Lia.
 From Morph Require Import Base.UStr Gen.Tables Model.Terms Model.Data Model.Engine Model.Mapping Model.Spec Model.Fragment
-     Proofs.DataP Proofs.GroupingP Proofs.TermP Proofs.RowSpecP Proofs.DocSpecP Proofs.DocEngineP Proofs.DocQuotedP.
+     Model.Partition Model.Grouping Proofs.DataP Proofs.GroupingP Proofs.TermP Proofs.RowSpecP Proofs.DocSpecP Proofs.DocEngineP Proofs.DocQuotedP.
 Local Open Scope N_scope.
 
 Lemma flat_map_ext_in {A B} (f g : A -> list B) l : (forall x, In x l -> f x = g x) -> flat_map f l = flat_map g l.
@@ -64,4 +64,20 @@ Proof.
   rewrite (engine_document_is_spec_document cfg fe scfg raw Hcfg Hnq Hna d1 r1 l1 P1 N1 S1 (fun rl rw n => Hcols r1 rl rw n (or_introl eq_refl)) M1 x).
   rewrite (engine_document_is_spec_document cfg fe scfg raw Hcfg Hnq Hna d2 r2 l2 P2 N2 S2 (fun rl rw n => Hcols r2 rl rw n (or_intror (or_introl eq_refl))) M2 x).
   apply plain_document_is_union_of_parts; assumption.
+Qed.
+
+(* C02 at document level: any grouping of the rules gives the document of the generation rules *)
+Theorem grouped_document_is_spec_document cfg fe scfg raw (lab : rule -> label) d0 rules l :
+  cfg_agree cfg scfg -> c_nquads cfg = s_nquads scfg -> s_na scfg = c_na cfg ->
+  forallb plain_tm d0 = true -> normalise d0 = Ok rules -> (forall rl, In rl rules -> simple_rule rl) ->
+  (forall rl rw n, In rl rules -> In rw (raw (r_src rl)) -> In n (rule_names rl) -> assoc n rw <> None) ->
+  materialize_grouped cfg fe rules (delivered cfg raw) lab = Ok l ->
+  forall x, In x l <-> In x (spec_lines scfg fe d0 (spec_tables raw)).
+Proof.
+  intros Hcfg Hnq Hna Hpl Hn Hs Hcols Hg x.
+  destruct (materialize_rules cfg fe rules (delivered cfg raw)) as [l2|e] eqn:E.
+  - rewrite (grouped_same_statements cfg fe rules (delivered cfg raw) lab l l2 Hg E x).
+    exact (engine_document_is_spec_document cfg fe scfg raw Hcfg Hnq Hna d0 rules l2 Hpl Hn Hs Hcols E x).
+  - exfalso. assert (H : exists e', materialize_grouped cfg fe rules (delivered cfg raw) lab = Err e') by (apply grouped_err_iff; eauto).
+    destruct H as (e' & H). congruence.
 Qed.
